@@ -4,7 +4,7 @@ import refcheck, re
 QUALS = ["alpha", "beta", "milestone", "rc", "cr", "snapshot", "ga", "final", "release", "sp", "foo", "zeta", "xyz", "a", "b", "m", "dev", "pre"]
 def seeded(U, rnd, quick):
     jobs = []
-    for r in range(3 if quick else 30):
+    for r in range(3 if quick else 120):
         texts = set()
         while len(texts) < 150:
             n = rnd.randint(1, 4)
